@@ -53,6 +53,8 @@ def run_cell(prop, tier, name, known_regions):
     """Worker entry: explore one cell symbolically, then validate every path concretely."""
     from . import sx
 
+    import random
+    random.seed(int(os.environ.get("VERIF_SEED", "0") or 0))  # only orders the exploration; the tree is exhausted
     cell = _find_cell(prop, tier, name)
     known = [r for r in known_regions if r in cell.regions]
     t0 = time.time()
